@@ -1,5 +1,6 @@
 """C17 - parsers build exactly what was written, reject single-fault corruptions, and never
 return an object that violates its class invariants."""
+import re
 from vt.props import common
 from vt.props.common import call, report_failure, selfcheck
 from vt import adapt
@@ -240,6 +241,28 @@ def check_case(rec, case):
                 rec.violation('parse_%s:invariant_violated' % kind, 'parse_%s returned an object that violates its class invariants (%s) for a corrupted description' % (kind, why), fault=name, text=text)
             else:
                 rec.violation('parse_%s:accepts_%s' % (kind, name), 'parse_%s accepted a description with the fault "%s" instead of rejecting it' % (kind, name), fault=name, text=text)
+
+    # malformed state labels under each state_regex the library ships (round 14, C17_n: label regexes compiled as '^' + regex + '$' and
+    # used with .match(), which lets an alternation escape its anchors).  'Malformed' is decided here, independently: the label does not
+    # match the regex as a whole.
+    if case.get('faults', True) and kind in ('dfa', 'nfa') and R[0] and re.fullmatch(r'\w+', R[0][0]) and R[0][0] not in R[1]:
+        import gambatools.automaton_algorithms as aa
+        text, _, _ = render(kind, R, eps, dict(txt.PLAIN), rng)
+        q = R[0][0]
+        for rname in ('default', 'state_set_regex', 'state_product_regex', 'state_word_or_set_regex'):
+            regex = r'\w+' if rname == 'default' else getattr(aa, rname)()
+            for bad in (q + ',x}', q + '}', q + '{x}', q + '-x', '{' + q, '(' + q + ',x', q + ',x)', q + '!'):
+                if re.fullmatch(regex, bad):
+                    continue
+                corrupted = '\n'.join(' '.join(bad if t == q else t for t in line.split(' ')) for line in text.split('\n'))
+                o = call(parser_for(kind), corrupted, state_regex=regex)
+                rec.ev('fault_rejected')
+                if o.kind == 'exc':
+                    rec.counters['rejected:malformed_state_label/' + rname] += 1
+                elif o.ok:
+                    rec.violation('parse_%s:accepts_malformed_state_label' % kind, 'parse_%s(state_regex=%s) accepted a description whose state label does not match the regex'
+                                  % (kind, rname), label=bad, state_regex=regex, text=corrupted)
+                    break
 
 
 def gen_cases(rec, rng, tier):
